@@ -82,6 +82,10 @@ def op_grid():
     G.append(("get_many", (["K", "k2", "zz"],), {}))
     G.append(("gets_many", (["K", "zz"],), {}))
     G.append(("get_many", ([],), {}))
+    # mapping protocol
+    G.append(("__getitem__", ("K",), {}))
+    G.append(("__setitem__", ("K", "VAL"), {}))
+    G.append(("__delitem__", ("K",), {}))
     return G
 
 
@@ -108,7 +112,7 @@ def main(argv):
                         cfgs.append({"key_prefix": pfx, "default_noreply": dnr, "encoding": enc, "allow_unicode_keys": au, "_key": key, "_val": val, "_serde": sd, "_tmo": tmo})
     if not ctx.thorough:
         cfgs = [c for i, c in enumerate(cfgs) if i % 3 == 0 or c["encoding"] == "utf8"]
-    states = ["hit", "miss", "cas-mismatch", "non-numeric", "numeric"]
+    states = ["hit", "miss", "cas-mismatch", "non-numeric", "numeric", "empty-value"]
     grid = op_grid()
     n = 0
     for cfg in cfgs:
@@ -126,6 +130,8 @@ def main(argv):
                 n += 1
                 ref = None
                 for sname, mk in ST:
+                    if op.startswith("__") and sname.startswith("HashClient"):
+                        continue      # HashClient offers no subscript access at all: not an operation of that stack
                     S = Scripted(rng)
                     S.begin_call(0, {"chunk": "one"})
                     try:
@@ -139,6 +145,8 @@ def main(argv):
                         wk = kw["key_prefix"] + K.encode("utf8")
                         if state in ("hit", "cas-mismatch"):
                             srv.feed(999, b"set " + wk + b" 0 0 3\r\nold\r\n")
+                        elif state == "empty-value":
+                            srv.feed(999, b"set " + wk + b" 0 0 0\r\n\r\n")
                         elif state == "non-numeric":
                             srv.feed(999, b"set " + wk + b" 0 0 1\r\nx\r\n")
                         elif state == "numeric":
@@ -188,6 +196,50 @@ def main(argv):
                         ctx.violation(f"{sname} behaves differently from a plain Client: {what}",
                                       dict(case, client={"result": ref[0][:80], "sent": hx(ref[1][:80]), "timeouts": ref[2]},
                                            stack={"result": outcome[0][:80], "sent": hx(outcome[1][:80]), "timeouts": outcome[2]}), tags=tags)
+    # ---- short histories on ONE object per stack: an ordinary error in one call must not change how later calls behave ----------------
+    H = [
+        [("set", ("k", b"hello"), {"noreply": False}), ("incr", ("k", 1), {}), ("get", ("k",), {}), ("set", ("k", b"again"), {"noreply": False}), ("get", ("k",), {})],
+        [("set", ("n", b"5"), {"noreply": False}), ("touch", ("n", "soon"), {"noreply": False}), ("get", ("n",), {}), ("incr", ("n", 2), {}), ("gets", ("n",), {})],
+        [("get", ("bad key",), {}), ("set", ("k", b"1"), {"noreply": False}), ("get", ("k",), {})],
+        [("set", ("k", b"x"), {"noreply": False}), ("decr", ("k", 1), {}), ("decr", ("k", 1), {}), ("delete", ("k",), {"noreply": False}), ("get", ("k",), {}), ("add", ("k", b"7"), {"noreply": False}),
+         ("incr", ("k", 3), {})],
+        [("cas", ("k", b"v", b"notanumber"), {}), ("set", ("k", b"v"), {"noreply": False}), ("gets", ("k",), {}), ("get_many", (["k", "z"],), {})],
+        [("set", ("k", b""), {"noreply": False}), ("__getitem__", ("k",), {}), ("__setitem__", ("j", b"0"), {}), ("__getitem__", ("j",), {}), ("__delitem__", ("j",), {}), ("__getitem__", ("j",), {})],
+    ]
+    for hi, hist in enumerate(H):
+        for cfgi, kw in enumerate(({"default_noreply": False}, {"default_noreply": True, "key_prefix": b"p:"})):
+            ref = None
+            for sname, mk in ST:
+                if sname.startswith("HashClient") and any(op.startswith("__") for op, _, _ in hist):
+                    continue
+                S = Scripted(rng)
+                S.begin_call(0, {"chunk": "one"})
+                obj = mk(S, kw)
+                outs = []
+                for (op, args, okw) in hist:
+                    try:
+                        r = getattr(obj, op)(*args, **okw)
+                        outs.append(canon_value(op, r))
+                    except Exception as e:
+                        outs.append(canon_exc(e))
+                addr = ("10.0.0.1", 1) if sname == "HashClient(score 0)" else ("h", 1)
+                srv = S.server_for(type("C", (), {"addr": addr, "id": 999})())
+                lines_seen = [c for c in srv.cmds]
+                outcome = (outs, [repr(c)[:60] for c in lines_seen])
+                case = {"stack": sname, "history": [(op, repr(a)[:40]) for op, a, _ in hist], "config": repr(kw)}
+                if sname == "Client":
+                    ref = outcome
+                    continue
+                ctx.case(("hist", sname, hi, cfgi))
+                ctx.count("one-object-histories")
+                same = outcome == ref
+                if not same and sname.startswith("RetryingClient") and outcome[0] == ref[0]:
+                    same = True      # retried attempts repeat commands (C17's subject); results are what is compared
+                if not same:
+                    k = next((i for i, (a, b) in enumerate(zip(outcome[0], ref[0])) if a != b), None)
+                    ctx.violation(f"{sname} behaves differently from a plain Client in a sequence of calls on one object",
+                                  dict(case, first_difference_at=k, client=ref[0], stack=outcome[0], client_commands=len(ref[1]), stack_commands=len(outcome[1])),
+                                  tags=["stack:" + sname, "history"])
     ctx.assumptions = ["RetryingClient: 'same commands' = every attempt's bytes equal the plain client's (the number of attempts is C17's subject)",
                        "single-server HashClient (multi-server routing is C12)"]
     ctx.finish()
